@@ -76,7 +76,8 @@ def declare(rng, rich=False, wrapper="plain", ret=None):
     for _ in range(30):
         params = rand_sig(rng, rich)
         name = dyn.fresh("fn")
-        src = "def %s_raw(%s):\n    return dict(locals())\n%s = utype.parse(%s_raw)\n" % (name, sig_src(params), name, name)
+        opts = ", options=Options(collect_errors=True)" if rng.random() < 0.25 else ""
+        src = "def %s_raw(%s):\n    return dict(locals())\n%s = utype.parse(%s_raw%s)\n" % (name, sig_src(params), name, name, opts)
         try:
             dyn.declare(src)
         except Exception:
@@ -98,6 +99,9 @@ def rand_call(rng, params, allow_bad=True):
     for i in range(npos):
         ann = pos[i]["ann"] if i < len(pos) else (vp["ann"] if vp else None)
         args.append(val(ann))
+    if vp is not None and npos >= len(pos) and rng.random() < 0.5:
+        for _ in range(rng.randint(1, 3)):
+            args.append(rng.choice(BAD[vp["ann"]]) if (allow_bad and vp["ann"] in BAD and rng.random() < 0.3) else rng.choice(GOOD[vp["ann"]]))
     for i, p in enumerate(pos):
         # never the same parameter by position and by keyword; never an excluded one by keyword
         if i >= npos and p["kind"] == "pk" and not p["name"].startswith("_") and rng.random() < 0.6:
@@ -278,10 +282,12 @@ def declare_ctx(rng, rich=True):
             cands = [p for p in params if p["kind"] in ("pk", "ko") and not p["name"].startswith("_") and p["default"] is not None]
             if cands:
                 p = rng.choice(cands)
-                al = p["name"] + "_alias"
+                how = rng.choice(["alias_from", "alias", "ci"])
+                al = p["name"] + "_alias" if how != "ci" else p["name"].upper()
                 aliases[p["name"]] = al
                 old = "%s%s = %s" % (p["name"], ": " + p["ann"] if p["ann"] else "", p["default"]) if p["ann"] else "%s=%s" % (p["name"], p["default"])
-                new = "%s%s = utype.Param(%s, alias_from=[%r])" % (p["name"], ": " + p["ann"] if p["ann"] else "", p["default"], al)
+                extra = {"alias_from": "alias_from=[%r]" % al, "alias": "alias=%r" % al, "ci": "case_insensitive=True"}[how]
+                new = "%s%s = utype.Param(%s, %s)" % (p["name"], ": " + p["ann"] if p["ann"] else "", p["default"], extra)
                 if old not in plist:
                     continue
                 plist = plist.replace(old, new, 1)
@@ -290,9 +296,10 @@ def declare_ctx(rng, rich=True):
             firstp = next((p for p in params if p["kind"] in ("po", "pk")), None)
             if firstp is not None and firstp["ann"] is None and firstp["default"] is None:
                 continue      # '@staticmethod over @utype.parse' with a bare first parameter is taken for an instance method (documented guess)
+        deco_opts = "(options=Options(collect_errors=True))" if rng.random() < 0.3 else ""
         if ctx == "plain":
             src = ("def %s_raw(%s):\n    return dict(locals())\n"
-                   "@utype.parse\ndef %s(%s):\n    return dict(locals())\n" % (name, raw_plist, name, plist))
+                   "@utype.parse%s\ndef %s(%s):\n    return dict(locals())\n" % (name, raw_plist, deco_opts, name, plist))
         else:
             first = {"instance": "self, ", "class": "cls, ", "static": ""}[ctx]
             deco = {"instance": "", "class": "    @classmethod\n", "static": "    @staticmethod\n"}[ctx]
@@ -433,6 +440,26 @@ def result_oracle(i_seed):
             except exc.ParseError:
                 got = ("parse",)
             return None if repr(got) == repr(want) else "%r (eager=%s): awaited result of %r gave %r, expected %r" % (src, eager, retv, got, want)
+        if kind == "gen" and rng.random() < 0.5:
+            # a generator driven by send(): every sent value (falsy ones included) reaches the body converted
+            src = ("import typing\ndef f(n) -> typing.Generator[int, int, str]:\n    got = []\n    for _ in range(n):\n"
+                   "        s = yield len(got)\n        got.append(s)\n    return repr(got)\n")
+            exec(src, ns); g = utype.parse(ns["f"], eager=eager)
+            sends = [rng.choice([0, "0", 5, "7", None, False, 0.0, 3]) for _ in range(rng.randint(1, 4))]
+            def drive(fn, conv_send):
+                it = fn(len(sends)); out = [next(it)]
+                try:
+                    for x in sends:
+                        out.append(it.send(conv_send(x)) if x is not None else next(it))
+                except StopIteration as e:
+                    out.append(("ret", e.value))
+                return out
+            want = drive(ns["f"], lambda x: cv("int", x))
+            try:
+                got = drive(g, lambda x: x)
+            except exc.ParseError:
+                got = "parse"
+            return None if repr(got) == repr(want) else "%r (eager=%s): sends %r gave %r, the undecorated generator with converted sends gives %r" % (src, eager, sends, got, want)
         if kind == "gen":
             src = ("import typing\ndef f(vs, r) -> typing.Generator[%s, %s, %s]:\n    sent = []\n    for v in vs:\n        s = yield v\n"
                    "        sent.append(s)\n    return r\n" % (yt, "int", rt))
